@@ -26,8 +26,22 @@ class Probe2(Exception):
     pass
 
 
+def safe_repr(x):
+    try:
+        return repr(x)
+    except Exception as ex:
+        return "<%s whose repr raises %s>" % (type(x).__name__, type(ex).__name__)
+
+
 class PlainIter:
-    """a non-frame leaf"""
+    """a non-frame leaf; every third one cannot be printed (a future-like object whose repr reads a result that is not
+    there yet): what the chain's frames are does not depend on what its leaf looks like"""
+    unprintable = False
+
+    def __repr__(self):
+        if self.unprintable:
+            raise AttributeError("result is not set")
+        return object.__repr__(self)
 
     def __iter__(self):
         return self
@@ -174,6 +188,7 @@ class B:
 
     def leaf_for(self, awaiting):
         self.leaf = PlainIter()
+        self.leaf.unprintable = self.salt % 3 == 1
         if awaiting:
             a = AwaitIter(self.leaf)
             self.keep.append(a)
@@ -424,9 +439,9 @@ def run_chain(case, rec):
         bad.append("frames: spec links %s (%s) impl %s" % (exp, [b.k(i) for i in exp], names))
     if case["leaf"] == "iter":
         if st.leaf is not b.leaf:
-            bad.append("leaf: expected the plain iterator, got %r" % (st.leaf,))
+            bad.append("leaf: expected the plain iterator, got %s" % safe_repr(st.leaf))
     elif st.leaf is not None:
-        bad.append("leaf: expected None, got %r" % (st.leaf,))
+        bad.append("leaf: expected None, got %s" % safe_repr(st.leaf))
     if st.root is not x:
         bad.append("root is not x")
     def sig(fs):
